@@ -36,6 +36,11 @@ class _Cexptrk_Potential_Function(object):
   def __call__(self, *args):
     parameter_names = self._potential_form_tuple.signature.parameter_names
     assert len(args) == len(parameter_names)
+    # The parameters live in a symbol table shared by every call of this function. Remember the
+    # current bindings and put them back afterwards, otherwise a call made whilst this function is
+    # already being evaluated (forms that call each other) would leave the outer call with the
+    # inner call's parameter values.
+    saved = [self._local_symbol_table.variables[pn] for pn in parameter_names]
     for (pn, v) in zip(parameter_names, args):
       self._local_symbol_table.variables[pn] = v
 
@@ -45,7 +50,11 @@ class _Cexptrk_Potential_Function(object):
           self._expression = cexprtk.Expression(self._potential_form_tuple.expression, self._local_symbol_table)
         except cexprtk.ParseException as pe:
           raise Potential_Form_Exception("mathematical expression couldn't be parsed {}".format(pe))
-      retval = self._expression()
+      try:
+        retval = self._expression()
+      finally:
+        for (pn, v) in zip(parameter_names, saved):
+          self._local_symbol_table.variables[pn] = v
       return retval
     except Potential_Form_Exception as e:
       msg = e.args[0]
